@@ -1,7 +1,7 @@
 (* C01 - the resolver shows the highest-priority eligible feedback and nothing ineligible. *)
-From Coq Require Import ZArith QArith List String Bool.
+From Coq Require Import ZArith QArith List String Bool Permutation.
 Import ListNotations.
-From Pedal Require Import lib.PyMini lib.Assoc lib.StableSort model.C01_Resolver gen.C01_Gen model.C01_Run proof.C01_Lemmas.
+From Pedal Require Import lib.PyMini lib.Assoc lib.StableSort model.C01_Resolver gen.C01_Gen model.C01_Run proof.C01_Lemmas proof.C01_Order.
 Open Scope string_scope.
 Open Scope list_scope.
 Open Scope Z_scope.
@@ -56,6 +56,21 @@ Theorem C01_resolve_selects_best :
     end.
 Proof. exact (resolve_selects_best gen_category_priority gen_aliases gen_offset). Qed.
 Print Assumptions C01_resolve_selects_best.
+
+(* which feedback is delivered does not depend on the order in which the feedback objects were recorded, as long as no
+   two eligible feedback share a key (with equal keys the earlier one wins, by the theorem above): two reports holding the
+   same feedback in any order, with the same suppressions, deliver the same object or both deliver none *)
+Theorem C01_choice_is_independent_of_recording_order :
+  forall act ign act' ign' calls r r',
+    the_resolve act ign calls = Ok r ->
+    the_resolve act' ign' calls = Ok r' ->
+    Permutation (act ++ ign) (act' ++ ign') ->
+    (forall f g, In f (act ++ ign) -> In g (act ++ ign) ->
+                 eligible (the_supp calls) f = true -> eligible (the_supp calls) g = true ->
+                 the_key f = the_key g -> f_id f = f_id g) ->
+    r_used r = r_used r'.
+Proof. exact choice_order_independent. Qed.
+Print Assumptions C01_choice_is_independent_of_recording_order.
 
 (* if no feedback is eligible the learner gets the default 'complete / no errors' result *)
 Theorem C01_default_when_nothing_eligible :
